@@ -183,8 +183,16 @@ def expected_detector(kind, geo, env, cha):
     return e
 
 
-def pipeline_desc():
+PIPE_PALETTES = ["sparse", "dense"]
+
+
+def pipeline_desc(pal="sparse"):
     s = _seed() % 3
+    if pal == "dense":          # one model in every group, written in reverse group order
+        return {g: [{"name": f"m{i}", "func": MARK, "enabled": i % 4 != 1, "arguments": {"a": i + s, "v": [i]}}]
+                for i, g in reversed(list(enumerate(GROUPS)))} | {
+            "photon_collection": [{"name": "mark1", "func": MARK, "enabled": True, "arguments": {"a": 1.5 + s, "v": [1, 2.5]}}],
+            "readout_electronics": [{"name": "mark3", "func": MARK, "enabled": True, "arguments": {"a": 3}}]}
     return {
         "photon_collection": [{"name": "mark1", "func": MARK, "enabled": True, "arguments": {"a": 1.5 + s, "v": [1, 2.5]}}],
         "charge_collection": [{"name": "mark2", "func": MARK, "enabled": False, "arguments": {"a": 7}},
@@ -493,7 +501,7 @@ def run_doc(case):
 
     kind, dpal, mode, mpal = case["det"], case["detpal"], case["mode"], case["modepal"]
     viol, seen = [], set()
-    tag = f"{kind}/{dpal} {mode}/{mpal}"
+    tag = f"{kind}/{dpal} {mode}/{mpal}" + (f" pipeline={case['pipe']}" if case.get("pipe", "sparse") != "sparse" else "")
 
     def bad(code, where, what):
         key = {"part": "doc", "code": code, "where": where, "mode": mode}
@@ -509,7 +517,7 @@ def run_doc(case):
     expected = None
     try:
         geo, env, cha = detector_fields(kind, dpal)
-        pdesc = pipeline_desc()
+        pdesc = pipeline_desc(case.get("pipe", "sparse"))
         mdoc, mexp = mode_desc(mode, mpal, tmp)
         expected = {"detector": expected_detector(kind, geo, env, cha), "pipeline": expected_pipeline(pdesc),
                     "mode": mexp}
@@ -695,6 +703,7 @@ TABLE = [
     ("characteristics", "avalanche_gain", 1.0, 1000.0, True, True, 0.5, False, APD),
 ]
 PATHS = ["ctor", "yaml", "setter", "procset", "sweep", "yaml-sweep"]
+THOROUGH_PATHS = ["yaml+setter", "yaml+procset"]      # the loaded objects changed afterwards
 
 
 def table_values(row):
@@ -778,6 +787,14 @@ def run_range(case):
                 det = build_detector(kind, base["geometry"], base["environment"], base["characteristics"])
                 setattr(getattr(det, sec), field, tuple(value) if isinstance(value, list) else value)
                 got = _get(getattr(det, sec), field)
+            elif path in ("yaml+setter", "yaml+procset"):
+                d = {"exposure": {"readout": {"times": [1.0]}}, f"{kind}_detector": base, "pipeline": {}}
+                cfg = pyxel.loads(yaml_text(d))
+                if path == "yaml+setter":
+                    setattr(getattr(cfg.detector, sec), field, tuple(value) if isinstance(value, list) else value)
+                else:
+                    Processor(detector=cfg.detector, pipeline=cfg.pipeline).set(f"detector.{sec}.{field}", value)
+                got = _get(getattr(cfg.detector, sec), field)
             elif path == "procset":
                 det = build_detector(kind, base["geometry"], base["environment"], base["characteristics"])
                 proc = Processor(detector=det, pipeline=build_pipeline({}))
@@ -845,6 +862,9 @@ def enumerate_cases(tier, seed):
                     else:
                         run = True
                     cases.append({"part": "doc", "det": kind, "detpal": dpal, "mode": mode, "modepal": mpal, "run": run})
+                    if thorough:
+                        cases.append({"part": "doc", "det": kind, "detpal": dpal, "mode": mode, "modepal": mpal,
+                                      "run": mode != "calibration", "pipe": "dense"})
     # presence
     for ms in cfgx.subsets(MODE_KEYS):
         for ds in cfgx.subsets(DET_KEYS):
@@ -855,7 +875,7 @@ def enumerate_cases(tier, seed):
     # range
     for row in TABLE:
         for kind in row[8]:
-            for path in PATHS:
+            for path in PATHS + (THOROUGH_PATHS if thorough else []):
                 cases.append({"part": "range", "section": row[0], "field": row[1], "det": kind, "path": path})
     return cases
 
@@ -869,7 +889,9 @@ def expected_size(tier, seed):
         for d in range(0, 5):
             k = comb(3, m) * comb(4, d)
             n_pres += 2 * k + (k if (m + d > 2 and (m > 1 or d > 1)) else 0)
-    n_range = sum(len(r[8]) for r in TABLE) * len(PATHS)
+    n_range = sum(len(r[8]) for r in TABLE) * (len(PATHS) + (len(THOROUGH_PATHS) if tier == "thorough" else 0))
+    if tier == "thorough":
+        n_doc *= len(PIPE_PALETTES)
     return n_doc + n_pres + n_range
 
 
@@ -879,7 +901,8 @@ def run_case(case):
 
 def extra_coverage(tier, seed, agg):
     return {"bounds": {"detector_palettes": DET_PALETTES, "mode_palettes": MODE_PALETTES,
-                       "presence_patterns": 128, "paths": PATHS,
+                       "pipeline_palettes": PIPE_PALETTES if tier == "thorough" else PIPE_PALETTES[:1],
+                       "presence_patterns": 128, "paths": PATHS + (THOROUGH_PATHS if tier == "thorough" else []),
                        "range_table": [[r[0], r[1], r[2], r[3], r[4], r[5]] for r in TABLE]}}
 
 
